@@ -312,7 +312,18 @@ type expandReq struct {
 	Replay  bool        `json:"replay,omitempty"` // only replay and report
 }
 
+// chainRec is one further state reached by following the only enabled event
+// (a free one) in the same world: states with a single successor are expanded
+// without a replay of their own.
+type chainRec struct {
+	Ev    simEvent       `json:"ev"`
+	Hash  string         `json:"hash"`
+	Viol  []simViolation `json:"viol,omitempty"`
+	Final []simViolation `json:"final,omitempty"`
+}
+
 type succRec struct {
+	Chain []chainRec     `json:"chain,omitempty"`
 	Ev   simEvent       `json:"ev"`
 	Hash string         `json:"hash"`
 	Dev  int            `json:"dev"`
@@ -488,6 +499,33 @@ func expandState(sc *simScenario, req *expandReq) *expandResp {
 			if len(cur.w.led.viol) > nv {
 				rec.Viol = append(rec.Viol, cur.w.led.viol[nv:]...)
 			}
+			if a == 0 && rec.Err == "" && !risk && !sc.Menu.CrashAt && (sc.Final == "" || sc.Final == "adversary") && len(rec.Viol) == 0 && os.Getenv("VERIF_NOCHAIN") == "" {
+				chainHist := append(append([]simEvent(nil), req.Hist...), e)
+				for len(rec.Chain) < 64 {
+					evs2 := cur.enabled()
+					if len(evs2) != 1 || evs2[0].Dev != 0 || cur.w.mapOrderRisk() {
+						break
+					}
+					nv2 := len(cur.w.led.viol)
+					e2 := evs2[0]
+					if err := cur.apply(e2, false); err != nil {
+						// the normal expansion of the last chain state reports it
+						break
+					}
+					cr := chainRec{Ev: e2, Hash: cur.hash()}
+					if len(cur.w.led.viol) > nv2 {
+						cr.Viol = append(cr.Viol, cur.w.led.viol[nv2:]...)
+					}
+					chainHist = append(chainHist, e2)
+					if sc.Final != "" && (sc.Final != "adversary" || cur.w.led.newsAt == cur.w.clock) {
+						cr.Final = finalCheck(sc, chainHist)
+					}
+					rec.Chain = append(rec.Chain, cr)
+					if len(cr.Viol) > 0 || cur.w.mapOrderRisk() {
+						break
+					}
+				}
+			}
 			if !seenOut[rec.Hash+rec.Err] {
 				seenOut[rec.Hash+rec.Err] = true
 				resp.Succ = append(resp.Succ, rec)
@@ -626,6 +664,7 @@ type exploreResult struct {
 	OrderAlts    int
 	CrashImages  int
 	CrashPoints  map[string]int
+	Chained      int // transitions executed by chaining (no replay of their own)
 	Validated    int // histories re-executed on the implementation that reproduced the recorded state hash
 	WorkerDeaths int
 	Wall         float64
@@ -880,6 +919,30 @@ func explore(sc *simScenario, budget time.Duration, maxStates int) *exploreResul
 					}
 					seen[sr.Hash] = sr.Dev
 					child := &histNode{parent: r.node, ev: sr.Ev, depth: r.node.depth + 1, dev: sr.Dev, hash: sr.Hash}
+					// states with a single (free) successor were expanded by the worker in the same world
+					for _, cr := range sr.Chain {
+						res.Transitions++
+						res.Chained++
+						chist := append(child.history(), cr.Ev)
+						for _, v := range cr.Viol {
+							addFinding(v, chist)
+						}
+						for _, v := range cr.Final {
+							addFinding(v, chist)
+						}
+						if old, ok := seen[cr.Hash]; ok && old <= sr.Dev {
+							child = nil
+							break
+						}
+						if _, ok := seen[cr.Hash]; !ok {
+							res.States++
+						}
+						seen[cr.Hash] = sr.Dev
+						child = &histNode{parent: child, ev: cr.Ev, depth: child.depth + 1, dev: sr.Dev, hash: cr.Hash}
+					}
+					if child == nil {
+						continue
+					}
 					if child.depth > res.MaxDepth {
 						res.MaxDepth = child.depth
 					}
